@@ -125,6 +125,16 @@ func (r *Reporter) Violation(fingerprint, what string, replay interface{}) bool 
 	return true
 }
 
+// EvidenceDir is /verif/evidence for checks of /repo itself; runs against another
+// tree (VERIF_REPO, used to try changed trees) write elsewhere so that the
+// committed evidence always describes /repo.
+func EvidenceDir() string {
+	if r := os.Getenv("VERIF_REPO"); r != "" && r != "/repo" {
+		return "/var/tmp/verif-evidence-alt"
+	}
+	return filepath.Join(Root, "evidence")
+}
+
 // Evidence is the evidence file layout.
 type Evidence struct {
 	PropertyID  string                 `json:"property_id"`
@@ -147,13 +157,13 @@ func (r *Reporter) Finish(level string, coverage map[string]interface{}, assumpt
 	b, _ := json.MarshalIndent(ev, "", " ")
 	if os.Getenv("VERIF_PART") != "" {
 		// this run is one part of a property's check (the other engine merges it)
-		os.MkdirAll(filepath.Join(Root, "evidence", "parts"), 0o755)
-		os.WriteFile(filepath.Join(Root, "evidence", "parts", r.Prop+"."+os.Getenv("VERIF_PART")+".json"), b, 0o644)
+		os.MkdirAll(filepath.Join(EvidenceDir(), "parts"), 0o755)
+		os.WriteFile(filepath.Join(EvidenceDir(), "parts", r.Prop+"."+os.Getenv("VERIF_PART")+".json"), b, 0o644)
 	} else {
-		os.MkdirAll(filepath.Join(Root, "evidence"), 0o755)
-		tmp := filepath.Join(Root, "evidence", r.Prop+".json.tmp")
+		os.MkdirAll(EvidenceDir(), 0o755)
+		tmp := filepath.Join(EvidenceDir(), r.Prop+".json.tmp")
 		os.WriteFile(tmp, b, 0o644)
-		os.Rename(tmp, filepath.Join(Root, "evidence", r.Prop+".json"))
+		os.Rename(tmp, filepath.Join(EvidenceDir(), r.Prop+".json"))
 	}
 	if r.Violations > 0 {
 		return 1
